@@ -192,7 +192,13 @@ class HistoryRunner:
             n_ops = rng.randint(prof.min_ops, prof.max_ops)
             # seed rows
             n_seed = rng.randint(0, 5) if prof.max_rows <= MAX_ROWS else rng.randint(prof.max_rows // 2, prof.max_rows - 5)
-            for _ in range(n_seed):
+            while n_seed > 60:
+                # big databases are seeded in batches (also exercises insert_multiple with many points)
+                k = rng.choice([37, 64, 129])
+                ps = [gen.gen_point(rng, prof.meas, False, extra_meas=prof.extra_meas, extra_tag_vals=prof.extra_tag_vals, extra_tag_keys=prof.extra_tag_keys, extra_field_keys=prof.extra_field_keys) for _ in range(k)]
+                self._write(s, {"op": "insert_multiple", "ps": ps})
+                n_seed -= k
+            for _ in range(max(0, n_seed)):
                 op = {"op": "insert", "p": gen.gen_point(rng, prof.meas, False, extra_meas=prof.extra_meas, extra_tag_vals=prof.extra_tag_vals, extra_tag_keys=prof.extra_tag_keys, extra_field_keys=prof.extra_field_keys)}
                 self._write(s, op)
             for step in range(n_ops):
@@ -206,6 +212,10 @@ class HistoryRunner:
             res.count("histories")
             if prof.max_rows > MAX_ROWS:
                 res.count("histories_big")
+            if prof.max_rows > 100:
+                res.count("histories_huge")
+            if len(prof.meas) > 8:
+                res.count("histories_wide")
             return s
         finally:
             s.close()
